@@ -397,6 +397,38 @@ pub fn run(ctx: &mut Ctx) -> Result<(), String> {
         }
     }
 
+    // --- trees that are not packed to the left: empty leaves in the middle, non-empty ones further right
+    // (what a Byzantine leader's tree over [r0, <empty>, r2, ...] looks like); every index, both variants
+    let gap_trees = ctx.iters(160, 6000);
+    for g in 0..gap_trees {
+        let n = match g % 4 {
+            0 => 3,
+            1 => rng.random_range(3..=9),
+            2 => rng.random_range(9..=33),
+            _ => *[4usize, 5, 8, 16, 17, 32, 64, 65].choose(&mut rng).unwrap(),
+        };
+        let mut raw4: Vec<Vec<u8>> = (0..n).map(|i| unique_leaf(&mut rng, i, 97)).collect();
+        let holes = rng.random_range(1..n.max(2));
+        for _ in 0..holes {
+            let h = rng.random_range(0..n);
+            raw4[h].clear();
+        }
+        if n == 3 && g % 8 == 0 {
+            raw4 = vec![unique_leaf(&mut rng, 0, 97), vec![], unique_leaf(&mut rng, 2, 97)];
+        }
+        let rt4 = RefTree::new(&raw4);
+        let tree4 = PlainMerkleTree::new(&raw4);
+        let wrong = unique_leaf(&mut rng, n + 9, 96);
+        let case4 = Case { ty: "plain-gaps", n, leaves: &raw4, raw: &raw4, tree: &tree4, rt: &rt4, wrong_leaf: &wrong };
+        let root4 = rt4.root();
+        for i in 0..n {
+            let rp = rt4.proof(i);
+            let want = rt4.is_last(i);
+            expect(ctx, &case4, if want { "gaps-last" } else { "gaps-not-last" }, true, &raw4[i], i, &root4, &rp, want, i);
+            expect(ctx, &case4, "gaps-membership", false, &raw4[i], i, &root4, &rp, true, i);
+        }
+    }
+
     // thorough: sweep all claimed indices 0..2^20 for sampled (tree, index) pairs
     if !ctx.quick() {
         let pairs = ctx.iters(0, 48);
